@@ -284,6 +284,7 @@ func ruleC04(c *Ctx, r *Report) {
 	}
 
 	// ---------------------------------------------------------------- R4 required exemptions
+	stageClassificationRule(c, r, p, "C04-R4")
 	r.Floor("C04-R4", 12, "table positions + Exempt arms of the walkers")
 	requiredExemptions(c, r, "C04-R4", [][]string{
 		{"AggregationOperators", "$limit"}, {"AggregationOperators", "$skip"}, {"AggregationOperators", "$sample"},
@@ -587,4 +588,79 @@ func c04SerialiserComplete(c *Ctx, r *Report) {
 	if nLoops < 2 {
 		r.Bad("C04-R5", ser.Name()+":loops", c.Pos(ser.Pos()), fmt.Sprintf("%d member loops recognised in the serialiser (object and array loop expected)", nLoops))
 	}
+}
+
+
+// stageClassificationRule (C04-R4 / C01-R2): which vocabulary a stage is read with - the
+// aggregation / core tables that type $limit, $skip ... as Exempt, or the Atlas Search tables -
+// is decided per stage: wherever the stage walker is applied to a value, its search flag is
+// either the classifier applied to that very value, or the flag the enclosing walker was
+// itself given for the document the value sits in. A flag computed from another stage (the
+// first of the pipeline, the previous one) reads later stages with the wrong tables: the
+// arguments of $limit / $skip are then rewritten, literals under operators that only the
+// other table knows stay in clear.
+func stageClassificationRule(c *Ctx, r *Report, p *Prov, rule string) {
+	sw := c.stageWalkerFn()
+	cmdFn := p.cmdWalker()
+	if sw == nil || cmdFn == nil {
+		return
+	}
+	// the classifier: f(any) bool whose result is passed to the stage walker
+	var classifier *ssa.Function
+	si := -1
+	for f := range p.Zone {
+		for _, call := range callsIn(f, func(k string, cc *ssa.Call) bool { return cc.Call.StaticCallee() == sw }) {
+			for ai, a := range call.Call.Args {
+				if !isBoolType(a.Type()) {
+					continue
+				}
+				if cc, ok := peel(a).(*ssa.Call); ok {
+					if g := c.staticPkgCallee(&cc.Call); g != nil && len(g.Params) == 1 && isEmptyInterface(g.Params[0].Type()) {
+						classifier, si = g, ai
+					}
+				}
+			}
+		}
+	}
+	if classifier == nil {
+		r.Undecided(rule, "stage-walker:search-classifier", c.Pos(sw.Pos()), "no call of the stage walker takes its search flag from a classifier of the stage")
+		return
+	}
+	r.Analysed["search_classifier"] = classifier.Name()
+	n := 0
+	for f := range p.Zone {
+		for _, call := range callsIn(f, func(k string, cc *ssa.Call) bool { return cc.Call.StaticCallee() == sw }) {
+			n++
+			ok := false
+			why := ""
+			for _, vs := range sourcesAt(call.Call.Args[si], call.Block()) {
+				v := peel(vs.Val)
+				switch x := v.(type) {
+				case *ssa.Parameter:
+					ok = isBoolType(x.Type())
+				case *ssa.Call:
+					if c.staticPkgCallee(&x.Call) == classifier {
+						ok = rootOf(peel(x.Call.Args[0])) == rootOf(peel(call.Call.Args[0])) || peel(x.Call.Args[0]) == peel(call.Call.Args[0])
+						if !ok {
+							why = "the classifier is applied to " + describeArg(x.Call.Args[0]) + ", not to the value that is walked"
+						}
+					} else {
+						ok = false
+						why = "the flag is the result of " + shortKey(calleeKey(&x.Call))
+					}
+				default:
+					ok = false
+					why = "the flag is " + describeArg(v)
+				}
+				if !ok {
+					break
+				}
+			}
+			construct := fmt.Sprintf("%s:search-flag-of-the-walked-stage", f.Name())
+			r.Check(ok, rule, construct, c.InstrPos(call),
+				"the search flag is the classifier of the walked value itself, or the enclosing walker's own flag",
+				"the vocabulary this stage is read with is not decided on the stage itself ("+why+"): stages following a search stage are read with the search tables - $limit / $skip lose their Exempt typing and their arguments are rewritten under --redactNumbers")
+		}
+	}
+	_ = n
 }
